@@ -95,7 +95,7 @@ def check_defined_hashtype_signature(sig: bytes) -> None:
 def parse_signature_blob(sig_blob: bytes) -> tuple[tuple[int, int], int]:
     if len(sig_blob) == 0:
         raise ValueError("empty sig_blob")
-    sig_pair = der.sigdecode_der(sig_blob[:-1], use_broken_open_ssl_mechanism=True)
+    sig_pair = der.sigdecode_der_lax(sig_blob[:-1])
     signature_type = ord(sig_blob[-1:])
     return sig_pair, signature_type
 
